@@ -3,21 +3,24 @@ import numpy as np
 from vlib import caseio, gen
 
 ID = "C01"
-COQ_TARGETS = ["C01_Extract.vo"]
+COQ_TARGETS = ["C01_Extract.vo", "C01_Transport.vo"]
+EXTRA_PROPERTIES = ["Gauss"]   # Properties_Gauss.v: the executed list instance (Gauss-Jordan inverse/determinant, density, whole Kalman correction) = the MathComp objects of the theorems
 EXTRACTED = "C01_model"
 DRIVER = "drv_C01.ml"
 HARNESS = "h_C01.cpp"
 VARIANTS = {"quick": ["O1"], "thorough": ["O1", "asan"]}
 AXIOMS_ALLOWED = []          # MathComp only: closed under the global context
 REQUIRED_THEOREMS = ["C01_cov_information_form", "C01_mean_gain_form", "C01_is_conjugate_posterior", "C01_cov_sym",
-                     "C01_cov_psd", "C01_cov_le_prior", "C01_componentwise", "C01_likelihood"]
+                     "C01_cov_psd", "C01_cov_le_prior", "C01_componentwise", "C01_likelihood",
+                     "Gauss_linv_correct", "Gauss_ldet_correct", "C01_executed_model_is_theorem_model",
+                     "C01_executed_likelihood_is_theorem_likelihood", "C01_executed_info_posterior_is_theorem_info_posterior"]
 RULE = ("one KFCorrection object per case driven through 1..4 successive corrections (45% multi-step: later steps change y / H / R / prior with the same or different sizes), getLikelihood queried twice after each; cases drawn from one seeded stream: n in 1..6, m in 1..4 (also m > n), components 1..4, P_i = Q diag(s) Q^T with "
         "chosen condition number <= 1e6, H random / rank-deficient / zero row / selector / zero, R SPD, y arbitrary; "
         "non-trivial = components >= 2 or H not of full rank; distinct by (n, m, comps, H kind, cond decade)")
 TRUSTED_BASE = ["Coq 8.16.1 kernel (coqc); no axioms (Print Assumptions: closed under the global context)",
                 "MathComp 1.15 matrix theory",
                 "extraction (ExtrOcamlBasic only) and ocaml/float_ops.ml, ocaml/drv_C01.ml, ocaml/caseio.ml",
-                "ListOps list instance of MatOps (structural operations and Gauss-Jordan inverse/determinant, unproved)",
+                "ListOps list instance of MatOps: proved to compute the MathComp operations on well-formed inputs over any realFieldType, incl. the Gauss-Jordan inverse/determinant on invertible inputs (ListOpsCorrect.v, ListGauss.v, C01_Transport.v; theorems of Properties_Gauss.v are obligations of this check); what remains between executed model and theorem model is IEEE rounding",
                 "cpp/h_C01.cpp harness, comparison tolerances rtol 1e-9*cond (model) / 1e-7*cond (information form)",
                 "correspondence is sampled: agreement is established on the generated cases only",
                 "IEEE rounding is not modelled (theorems over an exact real field)"]
